@@ -60,6 +60,15 @@ let log s =
   let db = rep s clause in let evs = rep s event in let tr = rep s lit in
   { l_db = db; l_events = evs; l_trail = tr }
 
+let hevent s = let k = next s in
+  match k with
+  | 0 -> HNext (problem s)
+  | 1 -> HCands (nextn s) | 2 -> HCandsEnd (nextn s)
+  | 3 -> HDeps (nextn s) | 4 -> HDepsEnd (nextn s)
+  | 5 -> HPoll (next s = 1)
+  | _ -> HQuiescent
+let hist s = rep s hevent
+
 let b x = if x then "1" else "0"
 let plist l = String.concat " " (List.map (fun x -> string_of_int (int_of_n x)) l)
 let polist = function None -> "none" | Some l -> "some " ^ plist l
@@ -100,6 +109,17 @@ let () =
               (match o_soft_expect u p with
                | None -> "none"
                | Some l -> "some " ^ plist (List.map fst l))
+            | "hist" ->
+              (* U history -> causal once eager cancel-quiet *)
+              let u = universe s in let h = hist s in
+              let up = table_provider u in
+              Printf.sprintf "%s %s %s %s" (b (causalb up [] [] h)) (b (onceb [] [] [] [] h)) (b (eagerb up [] [] h)) (b (cancel_quietb false h))
+            | "exact" ->
+              (* U P history -> none | 0/1 : exactly the needed metadata when the greedy selection exists *)
+              let u = universe s in let p = problem s in let h = hist s in
+              (match o_greedy u p with
+               | None -> "none"
+               | Some g -> b (exactb (table_provider u) p g h))
             | "logsat" ->
               (* U P log sol -> db-ok run-ok sat-ok [first bad clause index | -] *)
               let u = universe s in let p = problem s in let lg = log s in let sol = nlist s in
